@@ -69,6 +69,7 @@ pub fn run(seed: u64) -> i32 {
 fn has_dot(r: &rx::Rx) -> bool {
     match r {
         rx::Rx::Dot => true,
+        rx::Rx::Class(_) => rx::print(r).contains('.'),
         rx::Rx::Concat(v) | rx::Rx::Alt(v) => v.iter().any(has_dot),
         rx::Rx::Repeat(i, ..) | rx::Rx::Group(i, _) => has_dot(i),
         _ => false,
